@@ -251,7 +251,11 @@ fn gen(rng: &mut Rng, tier: Tier) -> Vec<Case> {
                     (Kind::Skipped, format!("{}{}\n", p, body).into_bytes())
                 }
                 2 => {
-                    let b: Vec<u8> = match rng.below(7) {
+                    let b: Vec<u8> = match rng.below(9) {
+                        // a long malformed line of 3-byte characters behind 0..2 ASCII bytes: whatever byte offset an error
+                        // message or a buffer is cut at, it falls inside a character for two of the three prefixes
+                        7 => format!("{}{}\n", "x".repeat(rng.below(3) as usize), "\u{4e16}".repeat(rng.range(20, 120) as usize)).into_bytes(),
+                        8 => format!("chr1\t{}{}\t9\n", "7".repeat(rng.below(3) as usize), "\u{754c}".repeat(rng.range(20, 3000) as usize)).into_bytes(),
                         0 => b"\n".to_vec(), 1 => b"garbage\n".to_vec(), 2 => b"chr1\t5\n".to_vec(), 3 => b"chr1\tx\t9\n".to_vec(),
                         4 => vec![b'c', 0xff, 0xfe, b'\t', b'1', b'\t', b'2', b'\n'], 5 => b"\r\n".to_vec(),
                         _ => { // a proper prefix of the skip prefix is not skipped
